@@ -186,7 +186,7 @@ func c7visible(d, u *c7slot) bool {
 	return d.blk.fn == nil && d.blk.kind == "top" && u.blk.fn != nil && d.order < u.blk.fn.order
 }
 
-const c07Prelude = "cv := true\ncw := false\niv := 1\nlv := []int{1, 2}\n"
+const c07Prelude = "cv := true\ncw := false\niv := 1\nlv := []int{1, 2}\nfunc c7two() (int, int) {\n\treturn 1, 2\n}\n"
 
 func (tr *c7tree) render(at map[*c7slot][]string, headerName map[*c7slot]string) string {
 	var sb strings.Builder
@@ -420,8 +420,12 @@ func TestC07(t *testing.T) {
 				hn[d] = "nv"
 			} else {
 				d = tr.slots[gen.Uniform(0, len(tr.slots)-1).Draw(t, "d-slot")]
-				defForm := []string{"nv := 1", "var nv int", "var nv = 1", "var nv int = 1", "nv, nw := 1, 2"}[gen.Uniform(0, 4).Draw(t, "def-form")]
+				// every definition form of the language, the name in first and in second place, values from a multi-value call
+				defForms := []string{"nv := 1", "var nv int", "var nv = 1", "var nv int = 1", "nv, nw := 1, 2", "nv, nw := c7two()", "nw, nv := c7two()", "nw, nv := 1, 2",
+					"var nv, nw int", "var nw, nv int = 1, 2", "var nv, nw = c7two()", "var nw, nv int = c7two()", "var nw, nv = 1, 2"}
+				defForm := defForms[gen.Uniform(0, len(defForms)-1).Draw(t, "def-form")]
 				at[d] = append(at[d], defForm)
+				r.Class("def-form:" + strings.NewReplacer("nv", "a", "nw", "b", "c7two", "two").Replace(defForm))
 			}
 			u := tr.slots[gen.Uniform(0, len(tr.slots)-1).Draw(t, "u-slot")]
 			if u == d {
@@ -432,7 +436,7 @@ func TestC07(t *testing.T) {
 			useLine := map[string]string{"read": "print(nv)", "read-in-expr": "uu := nv + 1", "write": "nv = 5", "compound": "nv += 2", "incdec": "nv++",
 				"redefine-short": "nv := 7", "redefine-var": "var nv int", "redefine-multi": "nv, zz := 7, 8"}[useKind]
 			defMulti := false
-			if lines := at[d]; len(lines) > 0 && strings.HasPrefix(lines[0], "nv, nw") {
+			if lines := at[d]; len(lines) > 0 && strings.Contains(lines[0], ",") && strings.Contains(lines[0], ":=") {
 				defMulti = true
 			}
 			sameSlot := u.order == d.order && u.blk == d.blk && d.header == ""
